@@ -137,6 +137,8 @@ ARITY_TABLE_FNS = re.compile(r"(::call$|::to_ex_budget$)")
 
 def auto_discharge(fl, f, b, kind, li):
     """-> reason string if the site is safe by a derived argument, else None"""
+    if re.match(r"^index\(.*\[RangeFull\]\)$", kind):
+        return "a full-range slice `x[..]` has no bound to exceed (Index<RangeFull> of arrays, slices, Vec and str never panics)"
     if kind == "bounds":
         lc = f.get("lc", {})
         idx, ln = b.get("idx", ""), b.get("len", "")
